@@ -404,7 +404,7 @@ def run_model(scenarios, observed, tag):
                        stdout=subprocess.PIPE, stderr=subprocess.STDOUT, text=True)
     out = p.stdout
     import re
-    m = re.search(r'=\s*\((\d+),\s*\[(.*?)\]\)', out, re.S)
+    m = re.search(r'=\s*\((\d+)(?:%nat)?,\s*\[(.*?)\]\)', out, re.S)
     if p.returncode != 0 or not m:
         return 0, None, out[-2000:]
     failing = [int(x) for x in re.findall(r'\d+', m.group(2))]
